@@ -96,8 +96,29 @@ def nested_entry(rng):
     return {"family": "nested", "spec": {"name": "g", "nodes": nodes, "bind": {}}, "inputs": {"x": "run:x"}, "kw": {}, "unique_outputs": True, "template": "nested-entry"}
 
 
+def early_shared(rng):
+    """Two (or three) exclusive, default-open branches that all write ONE name and run together in the first step,
+    because the gate's own input is computed by another node and arrives a step later.  Which value survives the
+    shared step is fixed by the order of the node list - identically for both runners and every completion order."""
+    k = rng.randint(2, 3)
+    names = [f"br{j}" for j in range(k)]
+    if k == 2 and rng.random() < 0.5:
+        gate = {"k": "ifelse", "name": "decide", "params": [{"n": "c"}], "key": "c", "t": names[0], "f": names[1], "table": [True, False], "open": True}
+    else:
+        gate = {"k": "route", "name": "decide", "params": [{"n": "c"}], "key": "c", "targets": list(names), "table": list(names), "open": True}
+    nodes = [{"k": "fn", "name": "prep", "params": [{"n": "x"}], "outs": ["c"]}, gate]
+    nodes += [{"k": "fn", "name": nm, "params": [{"n": "x"}], "outs": ["result"]} for nm in names]
+    if rng.random() < 0.6:
+        nodes.append({"k": "fn", "name": "use", "params": [{"n": "result"}], "outs": ["used"]})
+    rng.shuffle(nodes)
+    spec = {"name": "g", "nodes": nodes, "bind": {}, "selectors": []}
+    return {"family": "gated", "spec": spec, "inputs": {"x": "run:x"}, "kw": {}, "unique_outputs": False, "template": "early-shared"}
+
+
 def pick(rng, names):
     n = rng.choice(names)
+    if n == "early-shared":
+        return early_shared(rng)
     if n == "nested-entry":
         return nested_entry(rng)
     if n == "rewait":
